@@ -11,8 +11,8 @@ let show_proof (r : proof_result) : string =
     Printf.sprintf "cnt=%s nh=%d flags=%s hroot=%s" (hex_of_n m.mb_count) (Stdlib.List.length m.mb_hashes)
       (hex_of_bytes m.mb_flags) (hex_of_bytes (header_root m.mb_header)) in
   match r with
-  | PParseErr -> "res=parse-err"
-  | PExtractErr m -> Printf.sprintf "res=extract-err %s" (parsed m)
+  | PParseErr -> "err res=parse-err"
+  | PExtractErr m -> Printf.sprintf "err res=extract-err %s" (parsed m)
   | POk (m, root, ms) -> Printf.sprintf "res=ok %s root=%s matches=%s" (parsed m) (hex_of_bytes root) (hexlist ms)
 
 (* mk <header> <n> (<txid> <0|1>)*n *)
@@ -44,8 +44,8 @@ let cmd_claim t =
     else None in
   match mkl_claim asset genesis cs proof bv num k with
   | PgOk x -> Printf.printf "res=ok tx=%s\n" (hex_of_bytes (ser_full x))
-  | PgErr -> Printf.printf "res=err\n"
+  | PgErr -> Printf.printf "err res=err\n"
   | PgPanic -> Printf.printf "panic\n"
 
 let () =
-  register "mk" cmd_mk; register "proof" cmd_proof; register "claim" cmd_claim
+  register "mk" cmd_mk; register "mkc" cmd_mk; register "proof" cmd_proof; register "claim" cmd_claim
